@@ -255,6 +255,7 @@ func runPager(c Case, e *env) []Event {
 		cur := c.num("cur", 0)
 		var items []string
 		num := 1
+		offVariant := r.Intn(5)
 		for i, x := range c.list("anchors") {
 			m, _ := x.(map[string]interface{})
 			if cur == i+1 {
@@ -285,10 +286,11 @@ func runPager(c Case, e *env) []Event {
 			case "ftp":
 				href = fmt.Sprintf("ftp://%s/zqs/view/%d", pagerHost, num)
 			case "offsite":
-				href = pickS(r, fmt.Sprintf("https://other.example.org/zqs/view/%d", num), fmt.Sprintf("https://other.example.org/zqs/view?pg=%d", num),
+				// one foreign site per page (a mirror, a partner): its links follow one pattern too
+				href = []string{fmt.Sprintf("https://other.example.org/zqs/view/%d", num), fmt.Sprintf("https://other.example.org/zqs/view?pg=%d", num),
 					fmt.Sprintf("http://partner.example.net/news?page=%d", num),
 					// scheme-relative: starts with a slash but leads to another host
-					fmt.Sprintf("//other.example.org/zqs/view/%d", num), fmt.Sprintf("//mirror.example.net/zqs/view/%d", num))
+					fmt.Sprintf("//other.example.org/zqs/view/%d", num), fmt.Sprintf("//mirror.example.net/zqs/view/%d", num)}[offVariant]
 			case "lookprefix":
 				href = fmt.Sprintf("https://%s.evil.example.net/zqs/view/%d", pagerHost, num)
 			case "looksuffix":
